@@ -46,7 +46,7 @@ var handInvalid = []string{
 
 func runC13(cx *lib.Ctx) {
 	res := cx.Res
-	o := &oracle{cx: cx, ctx: evalCtx()}
+	o := &oracle{cx: cx, ctx: evalCtx(), wd: startWatchdog(cx)}
 	if cx.Replay != "" {
 		src := decodeReplay(lib.ReplayInput(cx.Replay))
 		nt := o.check(src, docOpts{origin: "replay", full: !hasBigExponentBytes(src)})
@@ -73,7 +73,7 @@ func runC13(cx *lib.Ctx) {
 	}
 
 	// generated documents and their mutations
-	n := cx.Scale(60000, 1500000)
+	n := cx.Scale(60000, 1000000)
 	for i := 0; i < n; i++ {
 		r := root.Fork()
 		g := &docGen{r: r, prepend: r.Chance(1, 6), dupKeys: r.Chance(1, 4)}
@@ -99,7 +99,7 @@ func runC13(cx *lib.Ctx) {
 	}
 
 	// full-expression documents
-	n = cx.Scale(25000, 600000)
+	n = cx.Scale(25000, 400000)
 	for i := 0; i < n; i++ {
 		r := root.Fork()
 		g := &docGen{r: r, templates: true, maxExp: 300, dupKeys: r.Chance(1, 5), tg: newTmplGen(r)}
@@ -120,7 +120,7 @@ func runC13(cx *lib.Ctx) {
 	}
 
 	// numbers
-	n = cx.Scale(25000, 600000)
+	n = cx.Scale(25000, 400000)
 	for i := 0; i < n; i++ {
 		r := root.Fork()
 		g := &docGen{r: r}
